@@ -174,3 +174,101 @@ package keeper
 //@   ensures id: result == "channel-" + dec(next)
 //@   ensures counter: store(ctx) == set(S0, types.KeyNextChannelSequence, be64((next + 1) % 18446744073709551616))
 //@   ensures only_store: world(ctx) == withKV(old(world(ctx)), k.storeService, store(ctx))
+
+// ---- channel handshake (C12, C13). State preconditions, the exact expected counterparty end handed to the
+// light client, and the shape of every write to the channel key.
+
+//@ contract (*Keeper).ChanOpenInit
+//@   let conn = connOf(world(ctx), connectionHops[0])
+//@   let found = hasConn(world(ctx), connectionHops[0])
+//@   let next = unbe64(get(store(ctx), types.KeyNextChannelSequence))
+//@   modifies world(ctx)
+//@   ensures connection_exists: err == nil ==> found
+//@   ensures single_version: err == nil ==> len(conn.Versions) == 1
+//@   ensures ordering_supported: err == nil ==> old(connectiontypes.VerifySupportedFeature(conn.Versions[0], order.String()))
+//@   ensures client_active: err == nil ==> clientStatus(old(world(ctx)), conn.ClientId) == exported.Active
+//@   ensures fresh_id: err == nil ==> result0 == "channel-" + dec(next)
+//@   ensures fail_unchanged: err != nil ==> world(ctx) == old(world(ctx))
+
+//@ contract (*Keeper).ChanOpenTry
+//@   let next = unbe64(get(store(ctx), types.KeyNextChannelSequence))
+//@   let W1 = withKV(world(ctx), k.storeService, set(store(ctx), types.KeyNextChannelSequence, be64((next + 1) % 18446744073709551616)))
+//@   let conn = connOf(W1, connectionHops[0])
+//@   let found = hasConn(W1, connectionHops[0])
+//@   let expected = types.NewChannel(types.INIT, order, types.NewCounterparty(portID, ""), strings1(conn.Counterparty.ConnectionId), counterpartyVersion)
+//@   modifies world(ctx)
+//@   ensures one_hop: err == nil ==> len(connectionHops) == 1
+//@   ensures connection_open: err == nil ==> found && conn.State == connectiontypes.OPEN
+//@   ensures single_version: err == nil ==> len(conn.Versions) == 1
+//@   ensures ordering_supported: err == nil ==> old(connectiontypes.VerifySupportedFeature(conn.Versions[0], order.String()))
+//@   ensures counterparty_proven: err == nil ==> ProvenChannelState(conn, proofHeight, counterparty.PortId, counterparty.ChannelId, expected)
+//@   ensures fresh_id: err == nil ==> result0 == "channel-" + dec(next)
+
+//@ contract (*Keeper).ChanOpenAck
+//@   let ch = nth(k.GetChannel(ctx, portID, channelID), 0)
+//@   let found = nth(k.GetChannel(ctx, portID, channelID), 1)
+//@   let conn = connOf(world(ctx), ch.ConnectionHops[0])
+//@   let expected = types.NewChannel(types.TRYOPEN, ch.Ordering, types.NewCounterparty(portID, channelID), strings1(conn.Counterparty.ConnectionId), counterpartyVersion)
+//@   ensures from_init_only: err == nil ==> found && ch.State == types.INIT
+//@   ensures connection_open: err == nil ==> hasConn(world(ctx), ch.ConnectionHops[0]) && conn.State == connectiontypes.OPEN
+//@   ensures counterparty_proven: err == nil ==> ProvenChannelState(conn, proofHeight, ch.Counterparty.PortId, counterpartyChannelID, expected)
+//@   ensures pure: world(ctx) == old(world(ctx))
+
+//@ contract (*Keeper).ChanOpenConfirm
+//@   let ch = nth(k.GetChannel(ctx, portID, channelID), 0)
+//@   let found = nth(k.GetChannel(ctx, portID, channelID), 1)
+//@   let conn = connOf(world(ctx), ch.ConnectionHops[0])
+//@   let expected = types.NewChannel(types.OPEN, ch.Ordering, types.NewCounterparty(portID, channelID), strings1(conn.Counterparty.ConnectionId), ch.Version)
+//@   ensures from_tryopen_only: err == nil ==> found && ch.State == types.TRYOPEN
+//@   ensures connection_open: err == nil ==> hasConn(world(ctx), ch.ConnectionHops[0]) && conn.State == connectiontypes.OPEN
+//@   ensures counterparty_proven: err == nil ==> ProvenChannelState(conn, proofHeight, ch.Counterparty.PortId, ch.Counterparty.ChannelId, expected)
+//@   ensures pure: world(ctx) == old(world(ctx))
+
+//@ contract (*Keeper).ChanCloseInit
+//@   let S0 = store(ctx)
+//@   let ch = nth(k.GetChannel(ctx, portID, channelID), 0)
+//@   let found = nth(k.GetChannel(ctx, portID, channelID), 1)
+//@   let conn = connOf(world(ctx), ch.ConnectionHops[0])
+//@   modifies world(ctx)
+//@   ensures not_closed_before: err == nil ==> found && ch.State != types.CLOSED
+//@   ensures client_active: err == nil ==> clientStatus(old(world(ctx)), conn.ClientId) == exported.Active
+//@   ensures connection_open: err == nil ==> hasConn(old(world(ctx)), ch.ConnectionHops[0]) && conn.State == connectiontypes.OPEN
+//@   ensures closed_after: err == nil ==> nth(k.GetChannel(ctx, portID, channelID), 1) && nth(k.GetChannel(ctx, portID, channelID), 0).State == types.CLOSED && nth(k.GetChannel(ctx, portID, channelID), 0).Ordering == ch.Ordering && nth(k.GetChannel(ctx, portID, channelID), 0).Counterparty == ch.Counterparty && nth(k.GetChannel(ctx, portID, channelID), 0).Version == ch.Version
+//@   ensures only_channel_key: err == nil ==> exists v string :: world(ctx) == withKV(old(world(ctx)), k.storeService, set(S0, host.ChannelKey(portID, channelID), v))
+//@   ensures fail_unchanged: err != nil ==> world(ctx) == old(world(ctx))
+
+//@ contract (*Keeper).ChanCloseConfirm
+//@   let S0 = store(ctx)
+//@   let ch = nth(k.GetChannel(ctx, portID, channelID), 0)
+//@   let found = nth(k.GetChannel(ctx, portID, channelID), 1)
+//@   let conn = connOf(world(ctx), ch.ConnectionHops[0])
+//@   let expected = types.NewChannel(types.CLOSED, ch.Ordering, types.NewCounterparty(portID, channelID), strings1(conn.Counterparty.ConnectionId), ch.Version)
+//@   modifies world(ctx)
+//@   ensures not_closed_before: err == nil ==> found && ch.State != types.CLOSED
+//@   ensures connection_open: err == nil ==> hasConn(old(world(ctx)), ch.ConnectionHops[0]) && conn.State == connectiontypes.OPEN
+//@   ensures counterparty_closed_proven: err == nil ==> ProvenChannelState(conn, proofHeight, ch.Counterparty.PortId, ch.Counterparty.ChannelId, expected)
+//@   ensures closed_after: err == nil ==> nth(k.GetChannel(ctx, portID, channelID), 1) && nth(k.GetChannel(ctx, portID, channelID), 0).State == types.CLOSED && nth(k.GetChannel(ctx, portID, channelID), 0).Ordering == ch.Ordering && nth(k.GetChannel(ctx, portID, channelID), 0).Counterparty == ch.Counterparty && nth(k.GetChannel(ctx, portID, channelID), 0).Version == ch.Version
+//@   ensures only_channel_key: err == nil ==> exists v string :: world(ctx) == withKV(old(world(ctx)), k.storeService, set(S0, host.ChannelKey(portID, channelID), v))
+//@   ensures fail_unchanged: err != nil ==> world(ctx) == old(world(ctx))
+
+//@ contract (*Keeper).WriteOpenInitChannel
+//@   let S0 = store(ctx)
+//@   modifies world(ctx)
+//@   ensures frame: store(ctx) == set(set(set(set(S0, host.ChannelKey(portID, channelID), marshalOf(types.NewChannel(types.INIT, order, counterparty, connectionHops, version))), hostv2.NextSequenceSendKey(channelID), be64(1)), host.NextSequenceRecvKey(portID, channelID), be64(1)), host.NextSequenceAckKey(portID, channelID), be64(1))
+//@   ensures only_store: world(ctx) == withKV(old(world(ctx)), k.storeService, store(ctx))
+
+//@ contract (*Keeper).WriteOpenTryChannel
+//@   let S0 = store(ctx)
+//@   modifies world(ctx)
+//@   ensures frame: store(ctx) == set(set(set(set(S0, hostv2.NextSequenceSendKey(channelID), be64(1)), host.NextSequenceRecvKey(portID, channelID), be64(1)), host.NextSequenceAckKey(portID, channelID), be64(1)), host.ChannelKey(portID, channelID), marshalOf(types.NewChannel(types.TRYOPEN, order, counterparty, connectionHops, version)))
+//@   ensures only_store: world(ctx) == withKV(old(world(ctx)), k.storeService, store(ctx))
+
+//@ contract (*Keeper).WriteOpenAckChannel
+//@   let ch = nth(k.GetChannel(ctx, portID, channelID), 0)
+//@   modifies world(ctx)
+//@   ensures opened: nth(k.GetChannel(ctx, portID, channelID), 1) && nth(k.GetChannel(ctx, portID, channelID), 0).State == types.OPEN && nth(k.GetChannel(ctx, portID, channelID), 0).Version == counterpartyVersion && nth(k.GetChannel(ctx, portID, channelID), 0).Counterparty.ChannelId == counterpartyChannelID && nth(k.GetChannel(ctx, portID, channelID), 0).Counterparty.PortId == ch.Counterparty.PortId && nth(k.GetChannel(ctx, portID, channelID), 0).Ordering == ch.Ordering && nth(k.GetChannel(ctx, portID, channelID), 0).ConnectionHops == ch.ConnectionHops
+
+//@ contract (*Keeper).WriteOpenConfirmChannel
+//@   let ch = nth(k.GetChannel(ctx, portID, channelID), 0)
+//@   modifies world(ctx)
+//@   ensures opened: nth(k.GetChannel(ctx, portID, channelID), 1) && nth(k.GetChannel(ctx, portID, channelID), 0).State == types.OPEN && nth(k.GetChannel(ctx, portID, channelID), 0).Version == ch.Version && nth(k.GetChannel(ctx, portID, channelID), 0).Counterparty == ch.Counterparty && nth(k.GetChannel(ctx, portID, channelID), 0).Ordering == ch.Ordering && nth(k.GetChannel(ctx, portID, channelID), 0).ConnectionHops == ch.ConnectionHops
